@@ -1,8 +1,8 @@
 #!/venv/bin/python
 """Derive coverage floors from the evidence of a run on the unchanged tree.
 
-floor(quick) = observed/4 (keys whose value is a small catalogue count keep a near-exact floor);
-floor(thorough) = 6 x floor(quick) unless a thorough evidence file is given (then observed/4).
+floor(quick) = observed/10 (keys whose value is a small catalogue count keep a near-exact floor);
+floor(thorough) = 6 x floor(quick) unless a thorough evidence file is given (then observed/10).
 Writes vf/floors.json, which the CLI prefers over the FLOORS literals in the property modules.
 Floors exist so that a change which makes every run crash early cannot be reported as 'held';
 they are deliberately far below what the unchanged tree produces.
@@ -22,7 +22,7 @@ for f in sorted(glob.glob(os.path.join(ROOT, "evidence", "C*.json"))):
     obs = e["coverage"]["observed"]
     fl = {}
     for k in keys:
-        fl[k] = EXACT[k] if k in EXACT else max(1, int(obs.get(k, 0) / 4))
+        fl[k] = EXACT[k] if k in EXACT else max(1, int(obs.get(k, 0) / 10))
     out.setdefault(pid, {})[tier] = fl
     if tier == "quick" and "--keep-thorough" not in sys.argv:
         out[pid]["thorough"] = {k: (v if k in EXACT else v * 6) for k, v in fl.items()}
